@@ -178,15 +178,11 @@ class Roles:
                 continue
             if not pred(bb, t):
                 continue
-            nb = bi.body.blocks[t.target]
-            sw = nb.term
-            if sw.k != "switch" or sw.discr is None or sw.discr.place is None or sw.discr.place.local != t.dest.local:
-                continue
-            arms = dict(sw.arms)
-            arm = sw.otherwise if truth else arms.get(0)
-            if arm is None:
-                continue
-            out |= bi.cfg.edge_dominated(t.target, arm)
+            from mapstate import _bool_switches
+            for sw, tr, fa in _bool_switches(bi, t.dest.local):      # through moves, `!x`, the return place of a spliced helper
+                arm = tr if truth else fa
+                if arm is not None:
+                    out |= bi.cfg.edge_dominated(sw, arm)
         return out
 
     def backlog_empty_blocks(self, bi):
